@@ -4,13 +4,14 @@ Case (plain JSON):
 
     {"t": {name: {"ext": parent name | None, "extmode": 0..3, "lib": bool, "mac": [nodes], "body": [nodes]}},
      "main": "main",
-     "fault": {"kind": "none" | "close" | "cancel" | "raise", "via": "render" | "generate",
+     "fault": {"kind": "none" | "close" | "cancel" | "raise", "via": "render" | "generate" | "sync",
                "k": int, "drv": "own" | "aio"}}
 
 Template sources are derived from the node lists by ``source_of`` (so every filtered ``for`` loop
 iterates over one of the harness's *tracked* iterables ``flt``/``aflt``/``gflt``; that is how the
 harness knows, independently of the code under test, whether a fault point lies inside a filtered
-loop = the input class of known finding F26).
+loop with its filter generator suspended = label ``inside_filtered_loop``, the shape of the repaired
+finding F26).
 
 Nodes: ["t", text] | ["x"] | ["a", n] (``{{ af(n) }}``: async data function awaiting n times) |
 ["s"] (sync data function) | ["gi", n, keykind] (``{{ gi[...] }}``: subscript returning a coroutine) | ["i"] (innermost loop variable) |
@@ -26,13 +27,16 @@ Faults (driven by a hand-written coroutine runner: the coroutine under test is a
             drv "aio" does the same with a real asyncio task and ``task.cancel()``
     raise   the k-th call of a data function / data iterator raises
     none    the render runs to completion
+    via "sync": the synchronous ``Template.render()`` of the async environment (Jinja's own event loop), kinds none / raise
 
 Oracle: ``sys.set_asyncgen_hooks`` records every async generator at its first iteration; once the
 render / consumer has finished, every recorded generator whose code belongs to a compiled template
 or to the jinja2 package must be finished (``ag_frame is None``); no RuntimeWarning/ResourceWarning
-and no unraisable exception may be reported up to and including a final ``gc.collect()``.
+no unraisable exception and no record of the ``asyncio`` logger may be reported up to and including a
+final ``gc.collect()``.
 """
 import gc
+import logging
 import os
 import re
 import sys
@@ -50,17 +54,17 @@ RULE = (
     "filtered loops with plain or async tests, loop.index/last/length, else, recursive). A dry run counts N chunks of "
     "generate_async, A suspensions of render_async / of a generate_async consumer and J data calls; then every fault "
     "point is one case: consumer aclose() after k chunks (k=0..N), CancelledError at suspension k (k=0..A, render and "
-    "generate, plus a real asyncio task for a strided subset), data call j raising (j=1..J, render and generate), and "
+    "generate, plus a real asyncio task for a strided subset), data call j raising (j=1..J, render, generate and the synchronous render() entry point, where Jinja owns the event loop), and "
     "the complete runs; quick strides each family to <= 60 points per template set. Non-trivial = at the fault point a "
     "Jinja async generator other than the main root / generate_async is open (block, include, parent root, import); "
-    "distinct = distinct (template set, fault). Points inside a filtered loop (F26) are judged for every generator "
-    "except the loop-filter generators t_N and then counted as excluded."
+    "distinct = distinct (template set, fault). Points inside a filtered loop (former finding F26, repaired by /repo c434ef9) are judged in "
+    "full and labelled inside_filtered_loop."
 )
 ASSUMPTIONS = [
     "a generator is 'created by Jinja' iff its code object's file is '<template>' (DictLoader templates) or lies in the jinja2 package; async generators supplied by the data are tracked but not judged",
     "the harness holds strong references to every tracked generator, so 'finalizer hook not called' is subsumed by 'ag_frame is None when the task/consumer finished'",
     "an 'event-loop step' is one suspension of a harness awaitable under a send()-driven runner (identical to asyncio.sleep(0) steps of a task; a strided subset is re-run under a real asyncio task)",
-    "'inside a filtered loop' is decided by the harness's own tracked iterables (started, not yet exhausted, and not currently executing their next()/the loop test, in which case the filter generator is on the stack and is unwound normally), not by the generators under test",
+    "the label 'inside_filtered_loop' is decided by the harness's own tracked iterables (started, not yet exhausted, and not currently executing their next()/the loop test, in which case the filter generator is on the stack and is unwound normally), not by the generators under test",
     "lazy async filter generators (|select, |map ... feeding a for loop) are not generated: the statement lists template, block, include, parent and loop-filter generators only",
 ]
 
@@ -110,9 +114,10 @@ def _body_src(nodes, d):
                 test = " if %s" % var if filt == "truthy" else " if ap(%s)" % var
             else:
                 # y: sync generator object, b / d: generator-returning filters (batch, items)
-                fn = {"s": "seq", "g": "ag", "c": "ai", "y": "sgen", "b": "seq", "d": "dct"}[itk]
+                # m / e: lazy async filter generators (map, select): expressible for replays, NOT generated (see ASSUMPTIONS)
+                fn = {"s": "seq", "g": "ag", "c": "ai", "y": "sgen", "b": "seq", "d": "dct", "m": "seq", "e": "seq"}[itk]
                 test = ""
-            it = "%s(%d)" % (fn, cnt) + ({"b": "|batch(2)", "d": "|items"}.get(itk, "") if not filt else "")
+            it = "%s(%d)" % (fn, cnt) + ({"b": "|batch(2)", "d": "|items", "m": "|map('string')", "e": "|select"}.get(itk, "") if not filt else "")
             s = "{%% for %s in %s%s%s %%}" % (var, it, test, " recursive" if rec else "")
             s += {0: "", 1: "{{ loop.index }}", 2: "{{ loop.last }}", 3: "{{ loop.length }}", 4: "{{ loop.revindex }}"}[lu]
             s += _body_src(body, d + 1)
@@ -452,6 +457,13 @@ def _close_leftovers(h):
 
 def _run_own(template, h, fault):
     kind, via, k = fault.get("kind", "none"), fault.get("via", "render"), fault.get("k", 0)
+    if via == "sync":
+        # the synchronous entry point of an async environment: Jinja runs the render on an event loop of its own
+        # and is responsible for leaving nothing behind on it (kinds none / raise only)
+        try:
+            return "ok", template.render()
+        except Boom:
+            return "boom", None
     if kind == "close":
         coro = _consumer(template, h, k)
     elif via == "generate":
@@ -506,6 +518,15 @@ def _run_aio(template, h, fault):
     return result[0]
 
 
+class _LogCapture(logging.Handler):
+    def __init__(self):
+        super().__init__(level=logging.WARNING)
+        self.records = []
+
+    def emit(self, record):
+        self.records.append("%s: %s" % (record.levelname, record.getMessage()))
+
+
 class _Unraisable:
     def __init__(self):
         self.seen = []
@@ -545,8 +566,8 @@ def _env_class():
     return MemoEnvironment
 
 
-def execute(case, judge_floop=False):
-    """Run one case.  Returns (Outcome, info dict); raises Violation / Excluded."""
+def execute(case):
+    """Run one case.  Returns (Outcome, info dict); raises Violation."""
     import jinja2
 
     fault = case.get("fault") or {"kind": "none"}
@@ -557,6 +578,13 @@ def execute(case, judge_floop=False):
     env.globals.update(h.globals())
     template = env.get_template(case.get("main", "main"))
 
+    import logging
+
+    alog = logging.getLogger("asyncio")
+    acap = _LogCapture()
+    old_propagate = alog.propagate
+    alog.addHandler(acap)
+    alog.propagate = False
     old_hooks = sys.get_asyncgen_hooks()
     old_unraisable = sys.unraisablehook
     unraisable = _Unraisable()
@@ -587,9 +615,10 @@ def execute(case, judge_floop=False):
     finally:
         sys.set_asyncgen_hooks(*old_hooks)
         sys.unraisablehook = old_unraisable
+        alog.removeHandler(acap)
+        alog.propagate = old_propagate
 
-    excluded = h.fault_hit and h.in_floop and not judge_floop
-    bad = [d for d, jinja, tn in open_desc if jinja and not (excluded and tn)]
+    bad = [d for d, jinja, tn in open_desc if jinja]
     if bad:
         raise core.Violation(
             "async generator(s) created by Jinja still open when the %s finished (%s): %s; all open: %s\n%s"
@@ -597,10 +626,10 @@ def execute(case, judge_floop=False):
         )
     if warns:
         raise core.Violation("warning(s) emitted: %s\n%s" % ([str(w.message) for w in warns][:4], _describe(case, src)))
+    if acap.records:
+        raise core.Violation("asyncio logged: %s\n%s" % (acap.records[:4], _describe(case, src)))
     if unraisable.seen:
         raise core.Violation("unraisable exception(s): %s\n%s" % (unraisable.seen[:4], _describe(case, src)))
-    if excluded:
-        raise core.Excluded()
 
     main = case.get("main", "main")
     labels = ["kind_" + fault.get("kind", "none"), "via_" + fault.get("via", "render"), "end_" + status]
@@ -635,6 +664,8 @@ def execute(case, judge_floop=False):
         else:
             inner.add("in_other")
     nontrivial = bool(h.fault_hit and inner - {"data_gen_open"})
+    if h.fault_hit and h.in_floop:
+        labels.append("inside_filtered_loop")  # a loop-filter generator is suspended (not on the stack) at the fault point
     if not h.fault_hit and fault.get("kind", "none") != "none":
         labels.append("fault_not_reached")
     labels.extend(sorted(inner))
@@ -646,11 +677,6 @@ def execute(case, judge_floop=False):
 
 def check_case(case):
     return execute(case)[0]
-
-
-def check_known(entry):
-    """A known finding is replayed with the F26 exclusion switched off."""
-    return execute(entry["case"], judge_floop=True)[0]
 
 
 # ---------------------------------------------------------------------------------------
@@ -826,6 +852,9 @@ def enumerate_set(base, run, cap, aio_cap):
     calls = infos["render"]["calls"]
     for k in _strided(n_chunks + 1, cap):
         run(dict(base, fault={"kind": "close", "via": "generate", "k": k, "drv": "own"}))
+    run(dict(base, fault={"kind": "none", "via": "sync", "k": 0, "drv": "own"}))
+    for k in _strided(calls, max(4, cap // 3)):
+        run(dict(base, fault={"kind": "raise", "via": "sync", "k": k + 1, "drv": "own"}))
     for via in ("render", "generate"):
         steps = infos[via]["steps"]
         for k in _strided(steps + 1, cap):
@@ -858,10 +887,7 @@ def run_shard(spec, ctx):
             info.update(i)
             return out
 
-        n_ex = rec.excluded
         rec.run(oracle, case, reraise=True)
-        if rec.excluded != n_ex:
-            return {"chunks": 0, "steps": 0, "calls": 0}
         return info or None
 
     for depth, nsets in PHASES[ctx.tier]:
@@ -901,10 +927,8 @@ PHASES = {"quick": [(3, 1000)], "thorough": [(3, 2000), (4, 4000), (5, 2000)]}
 def floors(total, tier):
     lab = total.labels
     need = ["kind_close", "kind_cancel", "kind_raise", "kind_none", "drv_aio", "in_block", "in_include", "in_parent",
-            "in_import", "in_include_ext", "dynamic_extends", "include_ignore_or_list", "sync_generator_loop", "awaitable_subscript", "end_cancelled", "end_boom", "nontrivial"]
+            "in_import", "in_include_ext", "dynamic_extends", "include_ignore_or_list", "sync_generator_loop", "awaitable_subscript", "inside_filtered_loop", "via_sync", "end_cancelled", "end_boom", "nontrivial"]
     missing = [n for n in need if lab.get(n, 0) < 20]
     if missing:
         return "label classes below floor 20: %s" % missing
-    if total.excluded < 20:
-        return "fewer than 20 fault points inside filtered loops were generated (excluded=%d)" % total.excluded
     return None
